@@ -18,11 +18,21 @@ def c10(ctx: Ctx):
     if ctx.replay:
         write_ndjson(cases, [ctx.replay["violation"]["c"]])
     else:
-        ctx.tlc("Gen_C10", "Gen_C10_%s.cfg" % ctx.tier, label="F generate features x mutations (BFS)")
+        # the seed is a constant of the generators (it selects the slice / offsets the columns); Python copies the cfg with
+        # Seed substituted.  VERIF_C10_FULL=1 (registered nowhere; hours) turns the thorough slices into the full products.
+        full = ctx.tier == "thorough" and os.environ.get("VERIF_C10_FULL") == "1"
+        seedsub = lambda t: t.replace("Seed = 1", "Seed = %d" % (ctx.seed % 50000))
+        text = seedsub(open(ctx.spec("Gen_C10_%s.cfg" % ctx.tier)).read())
+        if full:
+            text = text.replace("Slice = 7", "Slice = 1").replace("HeavySlice = 7", "HeavySlice = 1")
+        open(ctx.spec("Gen_C10_run.cfg"), "w").write(text)
+        ctx.tlc("Gen_C10", "Gen_C10_run.cfg", label="F generate features x mutations (BFS%s)" % ("" if ctx.tier == "quick" or full else ", seeded slice of the pair level"))
         n = ctx.unquote(ctx.spec("cases.ndjson"), cases)
         # the structured universe (spec/RobustShapes.tla): orthogonal arrays; the seed is a constant of the generator
         # (it offsets the columns), Python copies the cfg with Seed substituted
-        text = open(ctx.spec("Gen_C10S_%s.cfg" % ctx.tier)).read().replace("Seed = 1", "Seed = %d" % (ctx.seed % 50000))
+        text = seedsub(open(ctx.spec("Gen_C10S_%s.cfg" % ctx.tier)).read())
+        if full:
+            text = text.replace("K = 2", "K = 12")
         open(ctx.spec("Gen_C10S_run.cfg"), "w").write(text)
         ctx.tlc("Gen_C10S", "Gen_C10S_run.cfg", label="F generate structured cases (orthogonal arrays)")
         shape = os.path.join(ctx.scratch, "cases_shape.ndjson")
@@ -57,6 +67,7 @@ def c10(ctx: Ctx):
             ctx.samples.append(dict(c=o["c"], obs=o["obs"]))
     ctx.extra["cases_with_document_rejected_by_library_not_judged"] = rejected_docs
     ctx.rule = ("BFS of spec/RobustTraffic.tla: feature sets of size <= MaxFeat x mutation sequences of length <= MaxMut (pairs of features with at most one "
-                "mutation) x request/response side x MultiError; plus the rows of the orthogonal arrays of spec/RobustShapes.tla (P = 59, one array per mutation mode, "
+                "mutation) x request/response side x MultiError - quick: one feature x one mutation, all; thorough: those plus a seeded 1/7 slice of the pair level "
+                "(1/49 for the cases that die of F-C10-9 or validate a 3000-deep body in multi-error mode; spec/Gen_C10.tla); plus the rows of the orthogonal arrays of spec/RobustShapes.tla (P = 59, one array per mutation mode, "
                 "columns offset by the seed); non-trivial = at least one feature or mutation or a structured case, document accepted by Validate")
-    ctx.validate("Trace_C10", "Trace_C10.cfg", logp, chunk_lines=2000)
+    ctx.validate("Trace_C10", "Trace_C10.cfg", logp, chunk_lines=2000 if ctx.tier == "quick" else 4000)
